@@ -45,7 +45,7 @@ int readsplinefitstable(const char* path, struct splinetable* table){
 }
 
 int writesplinefitstable(const char* path, const struct splinetable* table){
-	if(!path || !table)
+	if(!path || !table || !table->data)
 		return(1);
 	try{
 		const auto& real_table=*static_cast<const photospline::splinetable<>*>(table->data);
@@ -249,7 +249,7 @@ int readsplinefitstable_mem(const struct splinetable_buffer* buffer,
 	
 int writesplinefitstable_mem(struct splinetable_buffer* buffer,
                              const struct splinetable* table){
-	if(!buffer || buffer->data || !table)
+	if(!buffer || buffer->data || !table || !table->data)
 		return(1);
 	try{
 		auto& real_table=*static_cast<photospline::splinetable<>*>(table->data);
@@ -337,6 +337,8 @@ void ndsparse_destroy(struct ndsparse* nd){
 #endif //PHOTOSPLINE_INCLUDES_SPGLAM
 	
 int splinetable_permute(struct splinetable* table, size_t* permutation){
+	if(!table || !table->data || !permutation)
+		return(1);
 	try{
 		auto& real_table=*static_cast<photospline::splinetable<>*>(table->data);
 		std::vector<size_t> permutationv(real_table.get_ndim());
